@@ -6,7 +6,7 @@ EXTENDS Integers, Sequences, TLC, Json
 VARIABLES l, bad
 Trace == ndJsonDeserialize("trace.ndjson")
 OK(ev) ==
-  /\ ~ev.abort /\ ev.panic = ""
+  /\ ~ev.abort /\ ev.panic = "" /\ ~ev.hung
   /\ ev.full /\ ev.n_reported = ev.n /\ ev.runid_ok /\ ev.offset_used = ev.announced_offset    \* the announced values are the ones used
   /\ IF ev.mode = "psync"
        THEN ev.out_len = ev.want_len /\ ev.out_diff = -1                  \* exactly RDB ++ commands came out of the pipe
